@@ -33,7 +33,8 @@ MANIFEST = {
              "under every operation occurs; positions occur once; each row carries the element/label/parent index of its site and the code of the "
              "FIRST operation (identity first) producing it; the occupancy of a kept row is the sum over the coincident images and the total is "
              "|G| x sum of site occupancies. Instantiated for all 530 regenerated settings (whose lists are groups by C02). Hand model tied by a "
-             "correspondence run over all 530 settings each run plus an independent exact-rational orbit oracle on the real code."),
+             "correspondence run over all 530 settings each run plus an independent exact-rational orbit oracle on the real code."
+             " For space groups given by explicit operations in a non-tabulated setting (origin moved): the shifted operation maps the shifted site to the shifted image (applyOp_shift), so the orbit is the shifted orbit."),
     "note": ("Trusted: Lean kernel; hand model (exact coincidence for the 1e-2 KD-tree merge, lexicographic pair order of scipy, fmod(x+7,1) as wrap); "
              "floats not modelled; correspondence + oracle sample sites per setting."),
     "technique": "Lean 4 proof (list induction over the merge/tiling model) + correspondence over all 530 settings + exact-rational orbit oracle",
